@@ -31,8 +31,9 @@ Theorem no_futile_retry : forall (A : Type) c faults m p e,
 Proof. exact no_futile_retry. Qed.
 
 (* waits never exceed the configured maximum, and never decrease when the back-off factor is at least 1 *)
-Theorem delay_capped : forall c k, (delay c k <= r_max c)%Q.
-Proof. exact delay_capped. Qed.
+Theorem delay_in_range : forall c k,
+  (0 <= delay c k)%Q /\ ((0 <= r_max c)%Q -> (delay c k <= r_max c)%Q) /\ ((r_max c < 0)%Q -> delay c k == 0).
+Proof. exact delay_range. Qed.
 
 Theorem delay_monotone : forall c (a b : nat),
   (1 <= r_factor c)%Q -> (0 <= r_base c)%Q -> (1 <= a <= b)%nat -> (delay c a <= delay c b)%Q.
@@ -42,7 +43,7 @@ Print Assumptions load_total.
 Print Assumptions load_real_when_possible.
 Print Assumptions load_attempts.
 Print Assumptions no_futile_retry.
-Print Assumptions delay_capped.
+Print Assumptions delay_in_range.
 Print Assumptions delay_monotone.
 
 Example ex_missing_once :
